@@ -290,6 +290,10 @@ func (c *Ctx) ruleReaderExit(rr *RuleRep) {
 			serveCall = in
 		case closeM:
 			closeCall = in
+		default:
+			if closeCall == nil && c.closesTransport(in, 0) {
+				closeCall = in // the transport closed directly
+			}
 		}
 	})
 	// all close(connClosed) sites in the package
